@@ -78,6 +78,12 @@ CHECKS = {
          '16 000 (quick) / 256 000 (thorough) executed (program, binding table, failure set) triples; on-error nested to depth 3 (quick) / 4 (thorough) with define / repeat / switch / case / content / replace / attributes / tal: namespace elements in between; failure sets of 1..2 expression occurrences (70% aimed inside handlers, incl. fallback expressions themselves); ~4 000 handled failures per quick run, each checked for exactly one handler call; visibility probes after every element.',
          'Trusted: reference model vlib/tmodel.py; constructs on which the statement is silent are not generated (listed in the evidence rule).',
          'DESIGN.md §3 C13'),
+ 'C05': ('model-diff+invariant-hooks',
+         'runtime probe oracle (every element surrounded by visibility probes, predicted by a reference interpreter), M-scope (recording subclass substituted for the real Scope, inspected when render() returns), reserved-name table at every binding site, random operation sequences on the real utils.Scope against a two-dictionary model',
+         'exploration',
+         '2 400 (quick) / 40 000 (thorough) generated nestings of define / global define / multi-part define / tuple define / repeat / tuple repeat / macro-use to depth 4 with three colliding names from a pool containing builtins and generated-code helper names, each pre-bound or not; the scope object of every one of these renders inspected at exit; 102 (site, name) pairs of the reserved-name table; 640 / 12 800 Scope operation sequences (length <= 30, up to 6 linked scopes).',
+         'Trusted: the 80-line reference interpreter; a global definition of a name inside an element that holds a local binding of the same name is not generated (the two clauses of the statement conflict there).',
+         'DESIGN.md §3 C05'),
 }
 NOT_YET = {}
 
